@@ -8,6 +8,12 @@ META = {
         "note": "Trusted: Lean kernel (axioms propext, Classical.choice, Quot.sound only), the hand-written model's tie to the code is differential (bounded by generator coverage reported in evidence), harness VM in place of ref-fvm, signature/hash/extra-call results as environment inputs. Completeness direction of acceptance (conditions => accept) is not yet a theorem.",
         "technique": "Lean 4 invariant/decision-logic proofs + differential correspondence of model and real actor",
     },
+    "C20": {
+        "text": "Lean 4 theorems over models of the init actor (Exec, Exec4, map_addresses_to_id, can_exec), the runtime create_actor rule, auto-creating sends, the EAM (Create/Create2/CreateExternal, create_actor, can_assign_address, Resurrect dispatch) and the EVM CREATE/CREATE2/SELFDESTRUCT opcodes, all following the Rust control flow: fresh_id_exec/fresh_id_exec4 (returned id = old next_id, next_id+1, addresses unmapped before), fresh_ids_consecutive/fresh_ids_increasing (ids allocated along any history are next_id, next_id+1, ... without gap or repetition, >= 100 from genesis), stable_mapping (an address resolves to the same id after any history), robust_unique, exec_matrix, exec4_only_eam, no_overwrite + kind_stable (code at an id changes only away from a placeholder; an EVM contract is re-initialised only when dead), reserved_never_assigned + step_eth_assignable (ID-masked, precompile and null addresses), create_formula/create2_formula + eam_create(2)_uses_formula + evm_create_uses_current_nonce, rlp_create_injective, create2_preimage_injective, nonce_monotone(_run) and nonce_consumed (exactly +1 per CREATE/CREATE2 that passes the endowment check, also when the EAM call fails). Executable Keccak-256 and RLP in Lean. Tied to the code on every run by differential execution of generated histories (Exec with all code ids and callers, Exec4 from the EAM and others, EAM Create/Create2/CreateExternal, contracts executing CREATE/CREATE2 with failing/self-destructing/nested constructors, self-destruct + resurrect, CreateMiner via power, auto-creating sends, scripted hash outputs landing in reserved ranges) on the real actors in the harness VM against the compiled model, with an independent oracle (ids fresh and increasing, init address map only grows, code at every id before/after, reserved ranges, Ethereum address formulas recomputed independently, nonce rule).",
+        "design_ref": "DESIGN.md §7 C20",
+        "note": "Trusted: Lean kernel (axioms propext, Classical.choice, Quot.sound only); the model's tie to the code is differential (bounded by generator coverage reported in evidence); harness VM in place of ref-fvm for create_actor / auto-creation / new_actor_address; Keccak/RLP values validated by tests, collision resistance assumed; constructor outcomes and robust addresses are environment inputs. `deployer nonces only grow` is proved per incarnation (Resurrect restarts at nonce 1); reserved ranges are an EAM-level guarantee (a placeholder can be auto-created at the f410 form of a reserved address by a plain send).",
+        "technique": "Lean 4 invariant/frame proofs over all histories + injectivity of RLP/CREATE2 pre-images + differential correspondence of model and real actors",
+    },
 }
 
 ALL = ["C%02d" % i for i in range(1, 21)]
